@@ -173,6 +173,17 @@ theorem dotDeclLoop_spec (unique : Bool) (t : T) :
     simp [nodesSpec, exported_false, keyOf]
   · rw [dotDeclLoop_true, nodesSpec_true, exported_false, List.filter_eq_self.2 (by simp)]
 
+/-- with the start node's key pre-seeded in `used_keys` (`unique_nodes`): the first occurrences
+of the other keys. -/
+theorem dotDeclLoop_seeded (t : T) :
+    dotDeclLoop true [keyOf true t] (iterPre t)
+      = ((nodesSpec true false t).filter (fun y => y.1 != keyOf true t)).map (fun y => (y.1, some y.2)) := by
+  rw [iterPre_flat, dotDeclLoop_true, nodesSpec_true, exported_false]
+  congr 1
+  apply List.filter_congr
+  intro y _
+  by_cases hy : y.1 = keyOf true t <;> simp [bne, hy]
+
 /-! ### Mermaid: the `id_to_idx` loop -/
 
 /-- `id_to_idx` as it results from numbering a node list from `i`. -/
